@@ -1,6 +1,6 @@
 """C19 — grid summarising conserves observations and aggregates per cell
-(tracklib/core/raster.py Raster / getCell / addCollectionToRaster / computeAggregates,
-algo/summarising.py summarize, core/utils.py co_*)."""
+(tracklib/core/raster.py Raster / AFMap / getCell / addAFMap / addCollectionToRaster / computeAggregates as calls on ONE
+raster object, algo/summarising.py summarize, core/utils.py co_*)."""
 import math, statistics, itertools, copy, json, os
 from fractions import Fraction
 from engine import Prop, fbits, bitsf, ratstr, parse_rat, tok_list, untok, close
@@ -41,23 +41,43 @@ class P(Prop):
         ("TracklibVerif.Props.C19", "TV.C19.rat_floor_ceil", "the driver's Rat.floor / Rat.ceil are the Int.floor / Int.ceil of the theorems"),
     ]
     partial = []
-    open_statements = ["IEEE rounding in (x-xmin)/rx, margins and sums is outside the theorems (floor-ring statement); sampled by the transfer check"]
-    modelled = ("core/raster.py Raster.__init__ (margin, ncol/nrow = max(1, ceil(..))), getCell, addAFMap/addCollectionToRaster (scatter with Python list indexing), "
-                "computeAggregates (NaN -> no-data); core/utils.py co_count co_sum co_min co_max co_avg co_median; the collection's bounding box is "
-                "modelled as min/max of the coordinates")
-    trusted = ["math.floor / math.ceil / float.is_integer are taken as exact floor, ceiling and integrality of the float"]
+    open_statements = ["IEEE rounding in (x-xmin)/rx, margins and sums is outside the theorems (floor-ring statement); sampled by the transfer check on float streams",
+                       "what a failing addCollectionToRaster / computeAggregates leaves behind is modelled and compared (driver), not stated as a theorem",
+                       "the raster's own no-data value (Raster(novalue=...), setNoDataValue) is carried by the model; computeAggregates writes the module constant NO_DATA_VALUE "
+                       "whatever it is (finding custom-novalue-ignored, findings/C19.json): the theorems say NaN -> the written constant"]
+    modelled = ("core/raster.py: Raster.__init__ (margin, ncol/nrow = max(1, ceil(..))), getCell, and the Raster object as a state machine (Model/RasterSession.lean): "
+                "the bands (AFMap.__init__ name / grid checks, addAFMap with and without grid, getNamesOfAFMap order), collectionValuesGrid (absent before the first collection), "
+                "addCollectionToRaster (features = band names up to '#', the dictionary REPLACED, AnalyticalFeatureError test after the replacement, scatter loop "
+                "track x feature x observation with Python list indexing, TypeError on an observation outside the grid leaving the partial scatter), computeAggregates (bands in "
+                "insertion order, IndexError / AttributeError / KeyError / NameError at the first cell of a band, NaN -> module constant NO_DATA_VALUE), get/setNoDataValue; "
+                "algo/summarising.py summarize (argument checks, bounding box, one addAFMap per (feature, operator) in call order via AFMap.getMeasureName, add, compute); "
+                "core/track.py hasAnalyticalFeature / getObsAnalyticalFeature for uid, x, y, idx and the track's own features; "
+                "core/utils.py co_count co_sum co_min co_max co_avg co_median; the collection's bounding box is modelled as min/max of the coordinates")
+    trusted = ["math.floor / math.ceil / float.is_integer are taken as exact floor, ceiling and integrality of the float",
+               "the iteration order of the Python set of features in addCollectionToRaster is recomputed by the harness (same insertions, same process) and passed to the model; "
+               "it only matters for the values left behind when the scatter raises",
+               "a band name crosses the protocol as its '#'-separated parts"]
     rule = ("exhaustive: grids over [0,W]x[0,H] (W,H in 1..3) for every listed resolution, getCell of every half-integer lattice point in [-0.5,W+0.5]x[-0.5,H+0.5]; "
             "one-track collections (0,0),(2,2),p for every lattice p in [0,2]^2, every listed resolution; "
             "every north-south and east-west line of 1..4 observations (steps 0.5 and 1; 1 observation = a single fix) for every listed resolution, margins 0 and 0.25 "
             "(extent of zero width / height: one column / one row); "
+            "every sequence of 1..5 calls from {addAFMap(v#co_count), addCollectionToRaster(c0), addCollectionToRaster(c1), computeAggregates} on ONE raster "
+            "(thorough: 1..6 calls, addAFMap(w#co_median) too); "
             "random: 1..3 tracks on a half-integer lattice (cell borders, outer border, corners; 1 in 4 collections lies on one vertical or horizontal line or at a single position), square and non-square resolutions, margins 0/0.125/0.25/0.5 at Rat "
             "and 0.05/0.1/0.3 at Float, random float coordinates at Float (1 in 6 on one line / at one position); two features v, w with NaN plus uid; "
             "ONE summarize call per case with several (feature, operator) pairs in a generated order (all six operators on v shuffled, or 2..4 operators on v "
             "in any order mixed with operators on w and uid; median first / in the middle / last), every produced grid is checked; 1 in 5 cases summarises the same "
             "collection twice; exhaustive: every ordered pair and triple of distinct operators on one feature over a fixed collection; "
+            "SESSIONS on one Raster object (Rat lattice and Float): 2..3 collections over one study area (tracks with 0..5 observations, a track may lack w), the raster built on an explicit "
+            "box / on collection 0's bounding box / returned by summarize() / on a box too small; templates reuse (bands, then add+compute for 2..3 collections), summ-reuse (another "
+            "collection scattered on the raster summarize returned), late-band (bands added after a pass, for scattered and for new features), change (feature values rewritten between add and "
+            "compute and before a second add), two-rasters (two rasters from the SAME Bbox object), errors (compute before add, names taken / empty / without '#' / unknown operator, explicit "
+            "grids of right and wrong shape, observations outside), soup (3..9 random calls incl. summarize in scalar / callable / duplicated / ragged / empty argument forms, features x, y, idx); "
+            "after every call the whole object state (geometry, no-data, every band, collectionValuesGrid) is compared with the model; the oracle checks, after every well-formed "
+            "addCollectionToRaster, the footprint of every observation's cell and the values kept per cell, and after every computeAggregates EVERY band against the collection scattered LAST; "
             "direct calls of the cell operators in sequence on ONE list (every ordered pair on fixed lists, random sequences), checking the values and that the list "
             "is left unchanged. "
-            "non-trivial = a grid of at least 2 cells and at least 2 observations (sum), any (cell, op)")
+            "non-trivial = a grid of at least 2 cells and at least 2 observations (sum), any (cell, op), a session that scatters and aggregates")
 
     def setup(self):
         from tracklib.core.obs import Obs
@@ -91,7 +111,9 @@ class P(Prop):
                 "collections {(0,0),(2,2),p}, p over the 25 half-integer lattice points of [0,2]^2, %d resolutions, margin 0" % len(RES),
                 "collections of 1..4 observations on one north-south or east-west line (steps 0.5 and 1), %d resolutions, margins 0 and 0.25" % len(RES),
                 "one summarize call with every ordered pair (30) and every ordered triple (120) of distinct operators on the same feature, fixed collection with NaN-free, mixed and all-NaN cells",
-                "every ordered pair (36, including the same operator twice) of cell operators called in sequence on one list, for 6 fixed lists"]
+                "every ordered pair (36, including the same operator twice) of cell operators called in sequence on one list, for 6 fixed lists",
+                "every sequence of 1..%d calls from {addAFMap(v#co_count), %saddCollectionToRaster(c0), addCollectionToRaster(c1), computeAggregates} on one raster over [0,2]^2 with unit cells (%d sessions), "
+                "the whole object state compared after every call" % ((5, "", 1364) if tier == "quick" else (6, "addAFMap(w#co_median), ", 19530))]
 
     def cases(self, rng, tier):
         out = []
@@ -683,6 +705,7 @@ class P(Prop):
     def impl_session(self, case):
         built = [self.build_coll(c) for c in case["colls"]]
         r, steps, names_at = None, [], {}
+        boxes = {}                                                  # one Bbox OBJECT per box value: rasters of a session share it
         for i, op in enumerate(case["ops"]):
             kind, out, cells = op[0], "ok", None
             if kind == "setfeat":
@@ -697,7 +720,10 @@ class P(Prop):
             try:
                 if kind == "new":
                     _, box, res, mg, nd = op
-                    bb = built[box["of"]][0].bbox() if isinstance(box, dict) else self.Bbox(self.ENU(box[0], box[2], 0), self.ENU(box[1], box[3], 0))
+                    if isinstance(box, dict):
+                        bb = built[box["of"]][0].bbox()
+                    else:
+                        bb = boxes.setdefault(tuple(box), self.Bbox(self.ENU(box[0], box[2], 0), self.ENU(box[1], box[3], 0)))
                     r = self.Raster(bb, tuple(res), mg) if nd is None else self.Raster(bb, tuple(res), mg, nd)
                 elif kind == "summarize":
                     _, k, afs, ops, res, mg, form = op
@@ -867,8 +893,10 @@ class P(Prop):
     def check_values(self, geo, values, tracks, cells, afs):
         """collectionValuesGrid: per feature, every cell holds exactly the values of the observations located in it"""
         ncol, nrow = geo[4], geo[5]
-        if values is None or sorted(values) != sorted(afs):
-            return "values are kept for the features %s, the bands need %s" % (None if values is None else sorted(values), sorted(afs))
+        if values is None:
+            return None                                             # no collectionValuesGrid attribute to look at: the bands are what counts
+        if sorted(values) != sorted(afs):
+            return "values are kept for the features %s, the bands need %s" % (sorted(values), sorted(afs))
         for f in afs:
             members, vals = self.members_of(tracks, cells, f)
             grid = values[f]
@@ -1019,7 +1047,10 @@ class P(Prop):
             alt = copy.deepcopy(case)
             alt["ops"] = [(op[:4] + [None] if op[0] == "new" else op) for op in alt["ops"] if op[0] != "nodata"]
             try:
-                if self.spec_session(alt, self.impl_session(alt)) is None:
+                import contextlib, io
+                with contextlib.redirect_stdout(io.StringIO()):
+                    ok = self.spec_session(alt, self.impl_session(alt)) is None
+                if ok:
                     return "custom-novalue-ignored"
             except Exception:
                 return None
@@ -1071,7 +1102,7 @@ class P(Prop):
             ox, oy = rng.uniform(-1e4, 1e4), rng.uniform(-1e4, 1e4)
             res = [W / rng.choice([1, 2, 3, 4.5]), H / rng.choice([1, 2, 3, 4.5])]
             mg = rng.choice([0, 0.05, 0.1, 0.3])
-        tpl = tpl or rng.choice(["reuse", "reuse", "reuse", "summ-reuse", "summ-reuse", "late-band", "change", "errors", "soup", "soup"])
+        tpl = tpl or rng.choice(["reuse", "reuse", "reuse", "summ-reuse", "summ-reuse", "late-band", "change", "errors", "soup", "soup", "two-rasters"])
         ncoll = rng.randrange(2, 4)
         colls = [self.s_coll(rng, mode, W, H, ox, oy, 1 + 10 * k, empty_ok=(k > 0)) for k in range(ncoll)]
         # collection 0 has no empty track and spans the study area: a raster built on its bounding box contains the others
@@ -1150,6 +1181,9 @@ class P(Prop):
                 if sf:
                     ops.append(sf)
             ops += [["compute"], ["add", k], ["compute"]]
+        elif tpl == "two-rasters":
+            new = ["new", area, res, mg if mg else (0.25 if mode == "q" else 0.1), nov]
+            ops = [new] + bands + [["add", pick()], ["compute"], list(new)] + bands[:2] + [["add", pick()], ["compute"]]
         elif tpl == "errors":
             ops = [new]
             if rng.random() < 0.3:
